@@ -74,3 +74,22 @@ func GetCloneCallFunc(ctx context.Context) (CallFunc, bool) {
 	}
 	return nil, false
 }
+
+////////////////////////////////////////////////////////////////////////////////
+
+const builtinDepthKey = contextKey("risor:builtin-depth")
+
+// maxBuiltinDepth bounds how deeply builtins may call builtins that were passed
+// to them as callbacks. No VM frame is involved in such a call, so nothing else
+// limits l.each(l.each) on a list that contains its own each method.
+const maxBuiltinDepth = 256
+
+// nestBuiltinCallback returns the context for calling a builtin callback from
+// within a builtin, or false if that nesting has reached its limit.
+func nestBuiltinCallback(ctx context.Context) (context.Context, bool) {
+	depth, _ := ctx.Value(builtinDepthKey).(int)
+	if depth >= maxBuiltinDepth {
+		return ctx, false
+	}
+	return context.WithValue(ctx, builtinDepthKey, depth+1), true
+}
